@@ -40,7 +40,7 @@ Qed.
 Definition ex17_spec (inp : list (str * (list scmd * ret_val))) (nosep : bool) : screen_spec :=
   {| sc_setup := []; sc_refresh := []; sc_show := []; sc_closed := []; sc_input := inp;
      sc_input_default := ([], None); sc_prompt_none := false; sc_input_required := true;
-     sc_no_separator := nosep; sc_skip_check := false; sc_pages := 0; sc_answer0 := AnsNoAttr; sc_custom := [] |}.
+     sc_no_separator := nosep; sc_skip_check := false; sc_pages := 0; sc_answer0 := AnsNoAttr; sc_custom := []; sc_setup_cmds := [] |}.
 Definition ex17_specl : list screen_spec :=
   [ex17_spec [([49%N], ([SPush 1 0], RProcessed))] false; ex17_spec [] true].
 Definition ex17_typed : list (option str) := [Some [49%N]; Some [114%N]; Some [99%N]; Some [114%N]].
